@@ -411,7 +411,22 @@ class OHull(Shape):
         return s.V[int(np.argmax(s.V @ n))].copy()
 
     def dist(s, p):
-        return dist_point_hull(p, s.V)
+        d = dist_point_hull(p, s.V)
+        # the NNLS distance is an upper bound that can be ~1e-9 relative too large when the optimum is not unique (a
+        # point in front of a face: flagged a correct Margin support point in the thorough tier). If the closest point
+        # is the projection on the plane of the most violated facet and that projection belongs to the hull, the
+        # facet distance is exact.
+        if d > 0:
+            eq = s.equations()
+            if eq is not None:
+                p = np.asarray(p, float)
+                sd = eq[:, :3] @ p + eq[:, 3]
+                i = int(np.argmax(sd))
+                if sd[i] > 0:
+                    q = p - sd[i] * eq[i, :3]
+                    if np.all(eq[:, :3] @ q + eq[:, 3] <= 1e-12 * max(1.0, float(np.abs(s.V).max()))):
+                        return float(min(d, sd[i]))
+        return d
 
     def equations(s):
         """Qhull facet equations (n, off) with n.x + off <= 0 inside, or None if
